@@ -198,6 +198,89 @@ def torch_mixed(run, classes):
                         run.oracle_ok(site)
 
 
+# --------------------------------------------------------------------------- property setters
+PROPERTY_VALUES = {
+    "batch_size": [("shorter", [2]), ("same", [2, 3]), ("torch.Size", torch.Size([2])), ("too-long", [2, 3, 4, 5]), ("wrong", [5])],
+    "shape": [("shorter", [2])],
+    "batch_dims": [("1", 1)],
+    # (duplicate names are not tried: a lazy stack accepts them and fails later - the dim-name property's subject)
+    "names": [("both", ["a", "b"]), ("one", [None, "b"]), ("none", None), ("too-many", ["a", "b", "c"])],
+    "is_locked": [("true", True), ("false", False)],
+    "device": [("cpu", "cpu")],
+}
+
+
+def property_setters(run):
+    """every public property of TensorDict that has a SETTER (found by reflection): assigning it on the tensorclass does what assigning it
+    on the underlying tensordict does - same refusal or same resulting tensordict, the property reads the same on both, the fields still
+    read as the entries.  Dense and lazily stacked receivers."""
+    props = []
+    for n in dir(TensorDict):
+        if n.startswith("_"):
+            continue
+        v = next((k.__dict__[n] for k in TensorDict.__mro__ if n in k.__dict__), None)
+        if isinstance(v, property) and v.fset is not None:
+            props.append(n)
+    for n in props:
+        if n not in PROPERTY_VALUES:
+            run.count("property_setters.no_candidate", n)
+            run.notes.append(f"property with a setter and no candidate value (not exercised): {n}")
+    for clsname in ("D1", "S1"):
+        cls = Z.BEHAVIOUR_CLASSES[clsname]
+        for recv in ("dense", "lazy"):
+            for n in props:
+                for label, value in PROPERTY_VALUES.get(n, []):
+                    mk = Z.make_lazy if recv == "lazy" else Z.make
+                    tc, td = mk(cls), mk(cls)._tensordict
+                    case = [clsname, recv, n, label]
+
+                    def assign(obj):
+                        try:
+                            with time_limit(10), warnings.catch_warnings():
+                                warnings.simplefilter("ignore")
+                                setattr(obj, n, value)
+                            return None
+                        except TimeoutError:
+                            raise
+                        except Exception as e:  # noqa: BLE001
+                            return e
+                    e_td, e_tc = assign(td), assign(tc)
+                    run.case(tuple(case), nontrivial=e_td is None)
+                    site = "property:" + n
+                    if e_td is not None:
+                        run.count("property_setters.td_refuses", f"{n}:{label}:{err_class(e_td)}")
+                        if e_tc is None:
+                            run.count("property_setters.tc_accepts_more", f"{n}:{label}")
+                        continue
+                    if e_tc is not None:
+                        run.oracle_fail(site, case, f"assignment works on the tensordict, raises {type(e_tc).__name__} on the tensorclass: {str(e_tc)[:120]}",
+                                        fingerprint=f"property:{n}:{label}:raises:{err_class(e_tc)}")
+                        continue
+                    why = None
+                    try:
+                        a, b = getattr(tc, n), getattr(td, n)
+                        if (list(a) if isinstance(a, (list, tuple, torch.Size)) else a) != (list(b) if isinstance(b, (list, tuple, torch.Size)) else b):
+                            why = f"afterwards the property reads {a!r} on the tensorclass, {b!r} on the tensordict"
+                    except Exception as e:  # noqa: BLE001
+                        why = f"reading the property back raises {type(e).__name__}: {str(e)[:80]}"
+                    if why is None and B.canon(tc._tensordict) != B.canon(td):
+                        why = "the underlying tensordict differs from the tensordict assigned directly"
+                    if why is None and list(tc._tensordict.batch_size) != list(td.batch_size):
+                        why = f"batch size {list(tc._tensordict.batch_size)} vs {list(td.batch_size)}"
+                    if why is None and tc._tensordict._maybe_names() != td._maybe_names():
+                        why = f"dim names {tc._tensordict._maybe_names()} vs {td._maybe_names()}"
+                    if why is None and tc._tensordict.is_locked != td.is_locked:
+                        why = f"lock state {tc._tensordict.is_locked} vs {td.is_locked}"
+                    if why is None:
+                        bad = B.fields_readable(tc)
+                        if bad:
+                            why = f"afterwards fields {bad} no longer read as the underlying entries"
+                    if why:
+                        run.oracle_fail(site, case, why, fingerprint=f"property:{n}:{label}:{why[:50]}")
+                    else:
+                        run.oracle_ok(site)
+
+
 # --------------------------------------------------------------------------- typed fields
 @tensorclass
 class Tp:
@@ -1356,10 +1439,12 @@ def history_stream(run):
         for step in range(run.rng.randint(3, 7)):
             k = it * 10 + step + 1
             op = run.rng.choice(["attr-x", "attr-o", "attr-o-none", "attr-s", "set-inplace-x", "set-tuple-ny", "update-tc", "update-dict", "setitem",
-                                 "lock", "unlock", "clone", "apply", "pickle", "stack-unbind"])
+                                 "lock", "unlock", "clone", "apply", "pickle", "stack-unbind", "del-none-field"])
+            if op == "del-none-field" and (exp.get("o") is not None or locked or lazy):
+                op = "attr-o-none"
             hist.append(op)
             new = dict(exp)
-            writes = op in ("attr-x", "attr-o", "attr-o-none", "attr-s", "set-tuple-ny", "update-tc", "update-dict", "setitem") or (op == "set-inplace-x" and False)
+            writes = op in ("attr-x", "attr-o", "attr-o-none", "attr-s", "set-tuple-ny", "update-tc", "update-dict", "setitem", "del-none-field") or (op == "set-inplace-x" and False)
             try:
                 with time_limit(20), warnings.catch_warnings():
                     warnings.simplefilter("ignore")
@@ -1369,6 +1454,9 @@ def history_stream(run):
                         v = tens((2, 3), k); t.o = v; new["o"] = v
                     elif op == "attr-o-none":
                         t.o = None; new["o"] = None
+                    elif op == "del-none-field":
+                        # `del_` of a field that holds None: it keeps reading None and the instance stays well formed (`_del_`, model delField)
+                        t.del_("o"); new["o"] = None
                     elif op == "attr-s":
                         t.s = f"s{k}"; new["s"] = f"s{k}"
                     elif op == "set-inplace-x":
